@@ -11,17 +11,21 @@ Open Scope Z_scope.
              observed number of failed attempts of each outage; output = for each outage
              the upper bounds (ns) of the waits after its failed attempts 0, 1, ...
              (the no-jitter value: C19_jitter_range; restart per outage: C19_outages_restart)
-   rs: one oracle value per observed call (1 for mode 0, n otherwise).  The global
-   math/rand source cannot be controlled by the harness, so for a jittered call the
-   harness passes what it observed (ns / 10^6) as the oracle value: the model then
-   answers (r mod d) ms, which equals the observation iff 0 <= r < d and the
-   observation was a whole number of ms -- i.e. "there is an oracle value for which
-   the model returns what the code returned".  Without jitter rs is all zeros and
-   ignored by the model.  The k calls before reset() are not observed (oracle 0).
+   rs (modes 0-2): one value per observed call (1 for mode 0, n otherwise).
+   Without jitter rs is all zeros and the delays are compared exactly.
+   With jitter the draw cannot be predicted (the global math/rand source is not under the
+   harness's control, and the property does not say how the draw is made), so the
+   comparison is through the range only: rs carries the delays the code returned (ns);
+   the model echoes such a value r when 0 <= r <= bound, bound = the no-jitter delay of
+   the same attempt (the property's "between zero and that value"), and otherwise answers
+   what it draws itself for the oracle value r (r mod bound, which differs from r) -- so
+   the outputs are equal iff the code's delay is inside the range.  The k calls before
+   reset() are not observed (oracle 0).
    Domain of the model: Base, Factor, k, n >= 0; anything else is a decode error.
 
-   observation of one call: (0 ns) the time.Duration in ns | (1) rand.Intn panicked.
-   A panic anywhere in a sequence makes the whole observation ((1)). *)
+   observation of one call: (0 ns) the time.Duration in ns | (1) no delay: the random draw
+   had an empty range (non-positive Cap; the code panics in rand.Intn).
+   (1) anywhere in a sequence makes the whole observation ((1)). *)
 
 Definition outcome_sx (o : outcome) : sx :=
   match o with
@@ -29,11 +33,30 @@ Definition outcome_sx (o : outcome) : sx :=
   | Dur ns => SL [SZ 0; SZ ns]
   end.
 
+(* jittered call: echo the observed delay r when it is within [0, bound] *)
+Definition echo_sx (r : Z) (o bound : outcome) : sx :=
+  match o, bound with
+  | Dur x, Dur bnd => if (0 <=? r) && (r <=? bnd) then SL [SZ 0; SZ r] else SL [SZ 0; SZ x]
+  | _, _ => SL [SZ 1]
+  end.
+
 Definition has_panic (os : list outcome) : bool :=
   existsb (fun o => match o with Panic => true | Dur _ => false end) os.
 
-Definition seq_sx (os : list outcome) : sx :=
-  if has_panic os then SL [SL [SZ 1]] else SL (map outcome_sx os).
+Fixpoint echo_list (rs : list Z) (os bs : list outcome) : list sx :=
+  match rs, os, bs with
+  | r :: rs', o :: os', b :: bs' => echo_sx r o b :: echo_list rs' os' bs'
+  | _, _, _ => []
+  end.
+
+(* a sequence of calls on [b] with observed values / oracle [rs] *)
+Definition seq_sx (b : backoff) (rs : list Z) : sx :=
+  let os := snd (dur_seq b rs) in
+  if has_panic os then SL [SL [SZ 1]]
+  else if no_jitter b then SL (map outcome_sx os)
+  else
+    let twin := mkBackoff true (base b) (factor b) (cap b) (attempt b) in
+    SL (echo_list rs os (snd (dur_seq twin (map (fun _ => 0) rs)))).
 
 Definition c19_input := (Z * bool * Z * Z * Z * Z * Z * list Z)%type.
 
@@ -51,12 +74,17 @@ Definition dec_input (x : sx) : option c19_input :=
 Definition run_typed (inp : c19_input) : sx :=
   let '(mode, nj, ba, f, c, k, n, rs) := inp in
   let b := fresh nj ba f c in
-  if mode =? 0 then outcome_sx (snd (dur_for_attempt b n (hd 0 rs)))
-  else if mode =? 1 then seq_sx (snd (dur_seq b rs))
-  else if mode =? 3 then SL (map seq_sx (outages (fresh true ba f c) rs))
+  if mode =? 0 then
+    let r := hd 0 rs in
+    let o := snd (dur_for_attempt b n r) in
+    if nj then outcome_sx o else echo_sx r o (snd (dur_for_attempt (fresh true ba f c) n 0))
+  else if mode =? 1 then seq_sx b rs
+  else if mode =? 3 then
+    SL (map (fun os => if has_panic os then SL [SL [SZ 1]] else SL (map outcome_sx os))
+            (outages (fresh true ba f c) rs))
   else
     let '(b1, os1) := dur_seq b (zeros k) in
     if has_panic os1 then SL [SL [SZ 1]]
-    else seq_sx (snd (dur_seq (reset b1) rs)).
+    else seq_sx (reset b1) rs.
 
 Definition run_C19 : sx -> sx := with_input dec_input run_typed.
